@@ -23,7 +23,7 @@ def make_converter(kind):
     if kind == "data_uri":
         return None, "ConvDataUri"
     state = {"k": 0}
-    if kind in ("counting", "counting_alt"):
+    if kind in ("counting", "counting_alt", "counting_alt_empty"):
         def f(image):
             state["k"] += 1
             k = state["k"]
@@ -32,7 +32,10 @@ def make_converter(kind):
             d = {"data-len": str(len(data)), "src": "img%d.%s" % (k, str(image.content_type).partition("/")[2])}
             if kind == "counting_alt":
                 d["alt"] = "custom"
+            elif kind == "counting_alt_empty":
+                d["alt"] = ""            # a decorative image: the converter's (empty) alt is an attribute it returns like any other
             return d
+        # (the model has no converter that returns an empty alt: that variant is checked by the oracle only)
         return mammoth.images.img_element(f), "(ConvCounting %s)" % T.b(kind == "counting_alt")
     if kind == "no_open":
         def g(image):
